@@ -1053,7 +1053,7 @@ def check_x(ctx, case):
         kind, detail = hard[0]
         if stuck:
             return ctx.fail("F18.xunitary.non_s2_op_inside_squeezer_block", "command %s sits between two S2gates; compiled circuit: %s" % (gates[stuck[0]][:3], detail))
-        if not gp and kind in ("sequence", "inconsistent"):
+        if not gp and kind in ("sequence", "inconsistent", "dagger"):
             return ctx.fail("conformance.no_layout_check_without_gate_parameters", "device specification without gate_parameters: %s returned a "
                             "circuit that does not match the device layout (%s)" % (compiler, detail))
         if kind == "dagger":
@@ -1515,7 +1515,7 @@ def check_tdm(ctx, case):
 
 # ----------------------------------------------------------------------------------------------
 SUBS = [
-    Sub("x_compile", check=check_x, strategy=lambda ctx: x_case(), examples={"quick": 1100, "thorough": 6000},
+    Sub("x_compile", check=check_x, strategy=lambda ctx: x_case(), examples={"quick": 900, "thorough": 6000},
         shards={"quick": 4, "thorough": 14}, budget={"quick": 100, "thorough": 1500},
         rule="(device spec, X compiler, source program): X8 verbatim + harness-built 2/4/6/8-mode layouts, generated ranges; GBS-form, "
              "layout-form (with one mutation) and BipartiteGraphEmbed sources"),
